@@ -76,6 +76,7 @@ ABANDON_MS = 24 * 3600 * 1000        # the documented abandonment window of in-f
 COLLECTING = "metadata/collecting"   # announcements of collection runs in progress
 STAGED_AGE_MS = 10 * 3600 * 1000     # age of a pre-built file when the schedule starts (older than every grace period used)
 FIELDS = [{"id": 1, "name": "x", "type": "long", "required": False}]
+ADOPTING = ("adopt", "mixed")        # transaction kinds that adopt a pre-built file (append_files)
 
 
 def yield_filter(op: str, path: str, phase: tuple) -> bool:
@@ -173,7 +174,7 @@ def run_case(ctx, txns: List[Dict[str, Any]], chooser_factory, age_jump: int, se
             staged: Dict[str, Dict[str, Any]] = {}
             first = sorted(os.listdir(os.path.join(root, "data")))[0]
             for i, spec in enumerate(txns):
-                if spec["kind"] == "adopt":
+                if spec["kind"] in ADOPTING:
                     name = f"prebuilt_{i}.parquet"
                     shutil.copy(os.path.join(root, "data", first), os.path.join(root, "data", name))
                     vmtime[f"data/{name}"] = (sc.clock_ms - STAGED_AGE_MS) / 1000.0
@@ -196,6 +197,16 @@ def run_case(ctx, txns: List[Dict[str, Any]], chooser_factory, age_jump: int, se
                         name = f"prebuilt_{i}.parquet"
                         t.append_data([DataFile(file_path=f"/data/{name}", file_format=FileFormat.PARQUET, partition_values={},
                                                 record_count=1, file_size_in_bytes=staged[name]["size"])])
+                        return "ok"
+                    if spec["kind"] == "mixed":
+                        # one transaction that WRITES a data file of its own and ADOPTS a pre-built one
+                        from datashard.data_structures import DataFile, FileFormat
+                        name = f"prebuilt_{i}.parquet"
+                        with t.new_transaction() as tx:
+                            tx.append_data(spec["rows"])
+                            tx.append_files([DataFile(file_path=f"/data/{name}", file_format=FileFormat.PARQUET, partition_values={},
+                                                      record_count=1, file_size_in_bytes=staged[name]["size"])])
+                            tx.commit()
                         return "ok"
                     tx = t.new_transaction().begin()
                     tx.append_data(spec["rows"])
@@ -301,7 +312,7 @@ def oracle(out: Dict[str, Any]) -> Optional[str]:
         return f"files referenced by retained snapshots were deleted by the collector: {out['final']['missing'][:3]}"
     for n, (st, d) in out["outcomes"].items():
         if st != "ok" and not (out.get("delayed_flip") and n == "A0" and "AmbiguousCommitError" in d):
-            if out.get("kinds", {}).get(n) == "adopt" and d.split(":")[0] in ("CollectionInProgressError", "FileNotFoundError") \
+            if out.get("kinds", {}).get(n) in ADOPTING and d.split(":")[0] in ("CollectionInProgressError", "FileNotFoundError") \
                     and not any(e["actor"] == n and "Transaction.commit" in e["phase"] for e in out["log"]):
                 # append_files REFUSED the pre-built file before anything was queued: a collection run was in progress, or an
                 # earlier run had collected the (unreferenced, unmarked, old) file as the orphan it was.  Nothing references it.
@@ -548,6 +559,42 @@ def directed_retry(ctx, txns, quick: bool):
         yield [("segments", seg)], run_case(ctx, txns, segment_chooser(seg), 5000)
 
 
+def directed_contended(ctx, txns, quick: bool, cap: int = 60):
+    """CONTENTION x any kind of committer x a collector at every step of the retry.  Transaction 0 (of any kind: it writes
+    its own file, ADOPTS a pre-built file older than every grace period, or both) has read its base; time passes; transaction 1
+    commits first, so 0's attempt loses the OCC race and is retried internally; 0 runs j more steps (through the lost attempt
+    and through the WHOLE retry), the collector runs k steps, 0 runs m more steps, the collector finishes, 0 finishes -- for
+    all j, k, m: the collector's marker load, metadata read, listings and deletions fall between every two steps of the
+    retrying committer, and the committer's steps between every two of the collector's.  Whatever the transaction holds when
+    its attempt is lost -- markers of files it wrote, of files it adopted, of the manifests of the lost attempt -- must
+    protect every file the retry finally publishes.  The oracle is the property's own (final table re-read)."""
+    jumps = [5000, 5000]
+    probe = run_case(ctx, txns, segment_chooser([("A0", 10**6), ("A1", 10**6), ("K", 10**6), ("G", 10**6)]), 0, jumps=jumps)
+    a0 = [e for e in probe["log"] if e["actor"] == "A0"]
+    begin = next((n for n, e in enumerate(a0) if "Transaction.commit" in e["phase"] and e["op"] == "read_file" and P.path_class(e["path"]) == "hint"), None)
+    if begin is None:
+        return                                   # (the transaction never reached its commit in the probe: nothing to contend)
+    while begin + 1 < len(a0) and not (a0[begin]["op"] == "read_file" and P.path_class(a0[begin]["path"]) == "meta"):
+        begin += 1
+    i = 1 + sum(1 for e in a0[:begin + 1] if yield_filter(e["op"], e["path"], e["phase"]))
+    rest = sum(1 for a in probe["schedule"] if a == "A0") - i          # steps of one attempt after the base read
+    ng = sum(1 for a in probe["schedule"] if a == "G")
+    na = 2 * rest + 6                                                   # the lost attempt + the whole retry
+    combos = [(j, k, m) for j in range(0, na) for k in range(1, ng + 1) for m in (0, 1, 2, 3, 5, 8, 10**6)]
+    if quick and len(combos) > cap:
+        # every j with the whole run inside one gap of the committer is the backbone; the rest is sampled
+        step = max(1, na // (cap // 3))
+        fixed = [(j, ng, 0) for j in range(0, na, step)]
+        others = [c for c in combos if c not in fixed]
+        combos = fixed + ctx.rng.sample(others, max(0, cap - len(fixed)))
+    elif len(combos) > 1500:
+        combos = ctx.rng.sample(combos, 1500)
+    for j, k, m in combos:
+        # K: step 1 starts the clock actor, steps 2 and 3 perform the jumps
+        seg = [("A0", i), ("K", 10**6), ("A1", 10**6), ("A0", j), ("G", k), ("A0", m), ("G", 10**6), ("A0", 10**6)]
+        yield sched_case(ctx, txns, seg, jumps=jumps)
+
+
 def directed_two_runs(ctx, txns, quick: bool):
     """Two collection runs around one long transaction: the first run (G) falls entirely between two steps of the
     transaction's write phase (marker written / file not yet written / file written), the transaction goes on, the clock
@@ -720,7 +767,11 @@ TXSETS = [
     [{"kind": "append", "rows": [{"x": 100}]}, {"kind": "append", "rows": [{"x": 200}]}],
     [{"kind": "adopt"}],                                                    # append_files of a pre-built file, 10 h old
     [{"kind": "append", "rows": [{"x": 100}]}, {"kind": "adopt"}],
+    # contention: the FIRST transaction adopts (or writes and adopts) and loses the OCC race to the second
+    [{"kind": "adopt"}, {"kind": "append", "rows": [{"x": 200}]}],
+    [{"kind": "mixed", "rows": [{"x": 100}]}, {"kind": "append", "rows": [{"x": 200}]}],
 ]
+CONTENDED = (2, 5, 6)                # transaction sets in which transaction 1 can commit under transaction 0
 
 
 def run(ctx) -> None:
@@ -741,7 +792,7 @@ def run(ctx) -> None:
     for ti, txns in enumerate(TXSETS):
         if quick and ti == 4:
             continue                                # (append + adopt together: thorough tier)
-        runs = list(explore(ctx, txns, 5000, 2 if quick else 3, (40 if ti < 2 else 25 if ti == 3 else 12) if quick else 900))
+        runs = list(explore(ctx, txns, 5000, 2 if quick else 3, (40 if ti < 2 else 25 if ti == 3 else 12 if ti < 5 else 6) if quick else 900 if ti < 5 else 300))
         if ti == 0 or not quick:
             runs += list(directed(ctx, txns, quick))
         elif ti == 3:
@@ -749,6 +800,8 @@ def run(ctx) -> None:
             runs += list(directed(ctx, txns, quick, cap=55))
         if ti == 2:
             runs += list(directed_retry(ctx, txns, quick))
+        if ti in CONTENDED:
+            runs += list(directed_contended(ctx, txns, quick, cap=30 if ti == 2 else 60 if ti == 5 else 40))
         if ti == 0:
             runs += list(directed_two_runs(ctx, txns, quick))
             runs += list(directed_delayed_flip(ctx, txns, quick))
@@ -760,8 +813,8 @@ def run(ctx) -> None:
             for who in range(len(txns)):
                 if txns[who]["kind"] == "append":
                     runs += list(directed_slow_steps(ctx, txns, quick, who))
-        runs += list(random_two_runs(ctx, txns, 8 if quick else 120))
-        for k in range(10 if quick else 200):
+        runs += list(random_two_runs(ctx, txns, (8 if ti < 5 else 3) if quick else 120))
+        for k in range((10 if ti < 5 else 4) if quick else 200):
             seed = ctx.rng.randrange(1 << 30)
             runs.append(([("random", seed)], run_case(ctx, txns, lambda sc, seed=seed: S.random_chooser(_r.Random(seed), 0.4), 5000)))
         for dev, out in runs:
@@ -771,7 +824,7 @@ def run(ctx) -> None:
             in_proviso = "end" in w and w["end"] - w["start"] < out.get("grace", GRACE)
             judged += 1 if in_proviso else 0
             gc_gave_up += 1 if any(st != "ok" and n in ("G", "H") for n, (st, _d) in out["outcomes"].items()) else 0
-            adopt_refused += 1 if any(st != "ok" and out.get("kinds", {}).get(n) == "adopt" for n, (st, _d) in out["outcomes"].items()) else 0
+            adopt_refused += 1 if any(st != "ok" and out.get("kinds", {}).get(n) in ADOPTING for n, (st, _d) in out["outcomes"].items()) else 0
             why = oracle(out)
             if why:
                 cls = ("referenced-file-deleted" if why.startswith("files referenced") else "table-unreadable" if why.startswith("table unreadable")
